@@ -371,6 +371,20 @@ def gen_case(rng: random.Random, tier: str, bias: str = ''):
     return dict(kind=kind, tree=tree, hops=hops, seed=rng.randrange(1 << 30))
 
 
+def gen_xproc_case(rng: random.Random, tier: str):
+    """a case whose hops go through a real child process (pairs of hops, default tb argument,
+    real process names)"""
+    c = gen_case(rng, tier, rng.choice(['leaf', 'ens']))
+    tree = c['tree']
+    tree['state'] = 'live'
+    nh = rng.choice([2, 2, 4, 6 if tier == 'thorough' else 4])
+    hops = []
+    for k in range(nh):
+        hops.append(dict(proc='(real)', rr=rng.randint(1, 4) if (k > 0 and rng.random() < 0.5) else 0, arg='d', tbdepth=1))
+    return dict(kind='xproc', tree=tree, hops=hops, seed=c['seed'], xproc=True,
+                child_name=rng.choice(['SpawnProcess-7', 'Relay-1', 'worker ] x']))
+
+
 def _count(tree):
     """(number of exception nodes, max ensemble depth)"""
     if tree.get('ens') is None:
@@ -389,7 +403,7 @@ def nontrivial(case, res):
     or a nested exception"""
     if res.get('skipped') or not res.get('hops'):
         return False
-    done = sum(1 for h in res['hops'] if h['obs'] != 'none')
+    done = sum(1 for h in res['hops'] if h['obs'] not in ('none', 'error'))
     return done >= 1 and (done >= 2 or _count(case['tree'])[0] >= 2)
 
 
@@ -678,6 +692,108 @@ def run_case(case):
         multiprocessing.current_process().name = saved_name
 
 
+def relay_main(qin, qout):
+    """body of the relay child process of a cross-process case: receives an exception (unpickled by
+    the queue = one hop done), optionally raises it again, wraps it and sends it back (the queue
+    pickles it = the next hop)"""
+    while True:
+        msg = qin.get()
+        if msg is None:
+            return
+        y, rr = msg
+        own = None
+        try:
+            if rr:
+                y = raise_and_catch(y, rr)
+                own = fmt_own(y)
+            qout.put(('ok', RemoteException(y), own, multiprocessing.current_process().name))
+        except BaseException as e:  # noqa
+            qout.put(('err', repr(e)[:300], None, multiprocessing.current_process().name))
+
+
+def _run_xproc(case, T, info, res, x):
+    """hops in pairs through a REAL child process and multiprocessing queues: this process wraps and
+    sends (hop 2j), the child receives, optionally re-raises, wraps and sends back (hop 2j+1).
+    Only the exception that comes back is observed; the model runs both hops."""
+    import queue as _q
+    mon = res['monitors']
+    ctx = multiprocessing.get_context('spawn')
+    qin, qout = ctx.Queue(), ctx.Queue()
+    child = ctx.Process(target=relay_main, args=(qin, qout), name=case.get('child_name', 'Relay-1'))
+    child.start()
+    try:
+        snap = None
+        prev_text = None
+        first_texts = {}
+        hops = case['hops'][:len(case['hops']) // 2 * 2]
+        for j in range(0, len(hops), 2):
+            h0, h1 = hops[j], hops[j + 1]
+            me = multiprocessing.current_process().name
+            rr0 = '-'
+            if h0['rr']:
+                x = raise_and_catch(x, h0['rr'])
+                rr0 = str(T.tok(fmt_own(x)))
+            if snap is None:
+                snap = snapshot(x, '')
+            hyp = py_ok(x)
+            line0 = f'proc={T.tok(f"[{me}] ")} rr={rr0} arg=d'
+            try:
+                r = RemoteException(x)
+            except ValueError as err:
+                res['hops'].append(dict(line=line0, obs='none', wobs='none', err=repr(err)[:200]))
+                if hyp:
+                    mon.append(dict(prop='C15', rule='wrap-failed', detail=f'hop {j}: RemoteException raised {err!r} '
+                                    'for an exception that carries tracebacks'))
+                break
+            wobs = [_sha(r.tb), observe(r.exc, T)]
+            qin.put((r, h1['rr']))
+            try:
+                status, y, own1, cname = qout.get(timeout=60)
+            except _q.Empty:
+                raise HarnessError('relay child did not answer within 60 s')
+            if status != 'ok':
+                res['hops'].append(dict(line=line0, obs=None, wobs=wobs))
+                res['hops'].append(dict(line=f'proc={T.tok(f"[{cname}] ")} rr=- arg=d', obs='error', wobs=None, err=y))
+                mon.append(dict(prop='C15', rule='hop-crashed', detail=f'hop {j + 1} in the child process: {y}'))
+                break
+            res['hops'].append(dict(line=line0, obs=None, wobs=wobs))
+            rr1 = '-' if own1 is None else str(T.tok(own1))
+            res['hops'].append(dict(line=f'proc={T.tok(f"[{cname}] ")} rr={rr1} arg=d', obs=observe(y, T), wobs=None))
+            hits = []
+            compare(snap, y, [], hits, first_texts, True)
+            if is_remote_exception(y) and isinstance(get_remote_traceback(y), str):
+                t = get_remote_traceback(y)
+                if snap['contain'] is not None and snap['contain'] not in t:
+                    hits.append(('text-lost', 'remote text does not contain the originally formatted traceback'))
+                if prev_text is not None:
+                    if not h0['rr'] and not h1['rr'] and t != prev_text:
+                        hits.append(('forward-changed', 'forwarded through two processes without re-raise but the remote text changed'))
+                    elif prev_text not in t:
+                        hits.append(('text-lost', 'remote text of the previous hop is no longer contained'))
+                prev_text = t
+            for rule, detail in hits:
+                mon.append(dict(prop='C15', rule=rule, detail=f'hops {j},{j + 1} (via child process {cname}): {detail}'))
+            x = y
+            if case.get('verbose'):
+                res.setdefault('texts', [snap['contain'] or ''])
+                res['texts'].append(get_remote_traceback(y) if is_remote_exception(y) else '(not remote)')
+                res['nested_texts'] = _nested_texts(y, [])
+        qin.put(None)
+        child.join(10)
+    finally:
+        if child.is_alive():
+            child.kill()
+            child.join(5)
+        for q in (qin, qout):
+            q.close()
+            q.cancel_join_thread()
+    res['pieces'] = T.pieces
+    res['names'] = T.names
+    res['xproc'] = True
+    res['events'] = [res['origin']] + [[h['line'], h['obs']] for h in res['hops']]
+    return res
+
+
 def _run_case(case, T, info, res):
     mon = res['monitors']
     try:
@@ -688,6 +804,8 @@ def _run_case(case, T, info, res):
         return res
     res['origin'] = describe(x, T)
     res['okq'] = py_ok(x)
+    if case.get('xproc'):
+        return _run_xproc(case, T, info, res, x)
     snap = None
     prev_text = None
     property_applies = True       # default-branch wrapping so far (explicit tb arguments are tie-only)
@@ -852,14 +970,14 @@ def compare_with_model(cid, case, res, out_lines):
         else:
             toks = [int(x) for x in wp[0].split('=', 1)[1].split(',') if x != '']
             wpred = [_sha(''.join(res['pieces'][t] for t in toks)), parse_tree(wp[1:], res['pieces'])]
-        if wpred != h['wobs']:
+        if h['wobs'] is not None and wpred != h['wobs']:
             return (f'hop {k} ({h["line"]}): constructor: model predicts (tb, exc) = {_short(wpred)} / '
                     f'real RemoteException has {_short(h["wobs"])}')
         if outs[k] == ['none']:
             pred = 'none'
         else:
             pred = parse_tree(outs[k], res['pieces'])
-        if pred != h['obs']:
+        if h['obs'] is not None and pred != h['obs']:
             return f'hop {k} ({h["line"]}): model predicts {_short(pred)} / real code gave {_short(h["obs"])}'
     return None
 
